@@ -14,12 +14,14 @@
                      timeout and an empty hook.                                                                       *)
 EXTENDS Integers, Sequences, FiniteSets, TLC
 
-Hook     == {"absent", "empty", "program_only", "with_args", "wrong_type"}
+Hook     == {"absent", "empty", "program_only", "with_args", "wrong_type",
+             "blank_program"}   \* a first entry that is empty or white space only: there is an entry, but it names no program
 (* "one": the smallest admissible value; "huge": a value near the top of the 64-bit range, which sizes and
    durations computed from it overflow - it may be refused or accepted, but if accepted it must be safe *)
 Cache    == {"absent", "negative", "zero", "one", "positive", "huge", "wrong_type"}
 Preload  == {"absent", "negative", "zero", "positive", "huge", "wrong_type"}
-Timeout  == {"absent", "negative", "zero", "positive", "huge", "fractional", "wrong_type"}
+Timeout  == {"absent", "negative", "zero", "positive", "huge", "fractional", "wrong_type",
+             "special"}         \* nan, inf: TOML floats that are no numbers of seconds at all
 Colour   == {"absent", "valid", "empty", "short", "no_hash", "non_hex", "signed", "wrong_type"}
 Shape    == {"ok", "unknown_key", "unknown_table", "syntax_error", "missing_file", "empty_file",
              "no_location"}     \* neither HOME nor XDG_CONFIG_HOME is set: there is nowhere to look, the defaults apply
@@ -34,10 +36,12 @@ MustReject(v) ==
     LET e == Effective(v) IN
     \/ e.shape \in {"unknown_key", "unknown_table", "syntax_error"}
     \/ e.colour \in {"empty", "short", "no_hash", "non_hex", "signed", "wrong_type"}
-    \/ "wrong_type" \in {e.hook, e.cache, e.preload, e.timeout} \/ e.timeout = "fractional"
+    \/ "wrong_type" \in {e.hook, e.cache, e.preload, e.timeout}
 Dangerous(v) ==
     LET e == Effective(v) IN e.hook = "empty" \/ e.cache \in {"negative", "zero"} \/ e.preload \in {"negative", "huge"}
-Unsettled(v) == LET e == Effective(v) IN "huge" \in {e.cache, e.preload, e.timeout}
+(* may be refused or accepted - but if accepted, safe: a fraction of a second is a sensible timeout for a start-up that reads
+   floats; nan and inf are not, and neither is a program name that is blank *)
+Unsettled(v) == LET e == Effective(v) IN "huge" \in {e.cache, e.preload, e.timeout} \/ e.timeout \in {"fractional", "special"} \/ e.hook = "blank_program"
 MustAccept(v) == ~MustReject(v) /\ ~Dangerous(v) /\ Effective(v).timeout # "negative" /\ ~Unsettled(v)
 
 Decision(variant, v) ==
@@ -59,10 +63,11 @@ AcceptedIsSafe(variant, v) == Decision(variant, v) = "accepted" => \A i \in 1..L
 
 (* C19 on one observed run: decision taken by the real start-up, and how each later step went *)
 ColoursOK(cs) == \A i \in 1..Len(cs) : Len(cs[i]) = 3 /\ \A j \in 1..3 : cs[i][j] \in 0..255
-RunOK(v, decision, diagnostic, steps, coloursOK) ==
+RunOK(v, decision, diagnostic, steps, coloursOK, timeoutMs) ==
     /\ MustReject(v) => decision = "rejected"
     /\ MustAccept(v) => decision = "accepted"
     /\ decision = "rejected" => diagnostic
     /\ decision = "accepted" => /\ coloursOK
+                                /\ timeoutMs >= 0          \* the timeout the fetcher will use, however the file said it
                                 /\ \A i \in 1..Len(steps) : steps[i].outcome \in {"ok", "error"}
 =============================================================================
